@@ -1,5 +1,6 @@
 """C18 — programs reported equal or equivalent really compute the same thing."""
 import copy
+import json
 import math
 
 import numpy as np
@@ -11,19 +12,27 @@ LEVEL = "proof"
 COQ_TARGETS = ["Base/Reorder.vo", "C18/Model.vo", "C18/Proofs.vo"]
 PROPERTIES_FILE = "Properties/C18.v"
 ALLOWED_AXIOMS = set()
-RULE = ("pairs (p, q): q derived from a random Gaussian program p by identity / prefix / extension / dagger flip / "
-        "parameter change / mode change / class change / swap of adjacent independent commands / mode relabelling; "
-        "non-trivial = q differs from p only in length, dagger, or order of commuting commands")
+RULE = ("pairs (p, q): q derived from a random program p (Gaussian gates, interferometers / passive channels with array parameters, measurements with "
+        "post-selection / dark counts, New / Del, free and measured parameters, compile targets, TDM programs) by identity / prefix / extension / duplication / "
+        "dagger flip / parameter change (0.5 ... 5e-9) / mode change or permutation / class change / swap of adjacent independent or dependent commands / mode "
+        "relabelling / option change; plus deterministic sweeps over every multi-mode operation class on permuted modes and over the tolerance edges; "
+        "non-trivial = q differs from p only in length, dagger, order of commands, mode order or options")
 TRUSTED_BASE = [
     "Coq 8.16.1 kernel; vm_compute for evaluating the model on cases",
-    "hand-written model coq/C18/Model.v of Program.__eq__ and coq/C18/Equiv.v of program_equivalence's labelling, tied by exact correspondence on generated pairs",
+    "hand-written model coq/C18/Model.v of Program.__eq__ (prog_eq), tied by exact correspondence on generated pairs of every family (correspondence + the extended batch of search)",
     "harness: tools/props/c18.py, tools/vlib/sfgen.py; gaussian backend used as the oracle for 'computes the same thing'",
-    "networkx is_isomorphic (library) is observed, not modelled",
+    "networkx is_isomorphic (library) is observed, not modelled in Coq",
+    "reference model of program_equivalence in tools/props/c18.py (ref_equiv: dependency DAG from the spec, node labels name/dagger/wires/parameters/options, "
+    "brute-force isomorphism), written against the documented behaviour; every verdict of the implementation is compared with it",
 ]
 MANIFEST_TEXT = ("Proved: Program.__eq__ (model of the repaired comparison) returns True only for structurally identical programs (every command, class, "
                  "parameters, modes, dagger flag, lengths), is reflexive and symmetric; swapping adjacent independent commands leaves the dependency DAG — hence "
-                 "program_equivalence's verdict — unchanged. That 'equivalent' implies 'same state' is checked by search (two recorded findings: mode relabelling).")
-ASSUMPTIONS = ["parameters are numeric in generated pairs; '==' on them is modelled by equality of value ids"]
+                 "program_equivalence's verdict — unchanged. That 'equivalent' implies 'same state' is checked by search: every verdict of == / equivalence (default, compare_params=False, user atol / rtol) "
+                 "on random and swept pairs (arrays, symbolic parameters, multi-mode operations on permuted modes, measurement options, New / Del, second segments, compile "
+                 "targets, TDM programs) is compared with a reference model and, when True, with the final states. Recorded findings: mode relabelling (2), array parameters in "
+                 "==, ragged parameter lists, symbolic CXgate / unbound BSgate parameters, asymmetric rtol, per-mode measurement options vs mode order, TDM time-bin arrays.")
+ASSUMPTIONS = ["'==' on parameters is modelled by equality of value ids (numbers by value, free parameters by name and expression, measured parameters by program and "
+               "mode, arrays by content)", "'computes the same thing' = same final state on the gaussian (or fock, cutoff 5) backend under a fixed numpy seed; for TDM programs the same samples"]
 
 NAMES = sorted(sfgen.ALL)
 
@@ -70,7 +79,7 @@ def mutate(rng, spec):
             i = rng.choice(idx)
             j = rng.randrange(len(cm[i][1]))
             # large and tiny perturbations: comparison must not round parameters
-            cm[i][1][j] = cm[i][1][j] + rng.choice([0.5, -0.25, 1e-3, 2e-5, 3e-6, -4e-6])
+            cm[i][1][j] = cm[i][1][j] + rng.choice([0.5, -0.25, 1e-3, 2e-5, 3e-6, -4e-6, 2e-6, 4e-7, -3e-8, 5e-9])
         else:
             kind = "same"
     elif kind == "modes" and cm and q["n"] >= 2:
@@ -230,33 +239,6 @@ def search(ctx):
 
 
 _search_random = search
-
-
-def search(ctx):
-    """Random pairs, plus a sweep over two-mode gates at the parameter values the equivalence test treats specially:
-    the same program with the gate's modes reversed must not be reported equivalent unless the states agree."""
-    _search_random(ctx)
-    search_feedforward(ctx)
-    search_registers(ctx)
-    rng = ctx.rng
-    specials = [["BSgate", p_] for p_ in SPECIAL_BS] + [["CXgate", [0.0]], ["CXgate", [0.4]], ["MZgate", [0.3, 0.2]], ["S2gate", [0.3, 0.1]], ["CZgate", [0.3]]]
-    for name, params in specials:
-        for rep in range(ctx.budget(2, 8)):
-            n = rng.randint(2, 3)
-            a, b = rng.sample(range(n), 2)
-            pre = [sfgen.random_cmd(rng, n, list(sfgen.GAUSSIAN_GATES)) for _ in range(rng.randint(1, 3))]
-            post = [sfgen.random_cmd(rng, n, list(sfgen.GAUSSIAN_GATES)) for _ in range(rng.randint(0, 2))]
-            p = {"n": n, "cmds": pre + [[name, list(params), [a, b], False]] + post}
-            q = {"n": n, "cmds": pre + [[name, list(params), [b, a], False]] + post}
-            data = {"check": "equiv", "kind": "modes", "p": p, "q": q}
-            try:
-                e1 = bool(sfgen.build_program(p).equivalence(sfgen.build_program(q)))
-            except Exception as e:
-                ctx.counterexample("equiv:raises:" + type(e).__name__, "equivalence raised %r" % e, data)
-                continue
-            ctx.case({"sweep": name, "params": params, "equiv": e1}, nontrivial=True, bucket="sweep-" + name)
-            if e1 and same_state(p, q) is False:
-                ctx.counterexample("equiv:modes-order", "equivalence reports True although %s%s acts on reversed modes and the states differ" % (name, params), data)
 
 
 # ---- feed-forward programs: measurements (post-selected, so deterministic), re-preparations, gates fed by outcomes, deletions ----------
@@ -498,7 +480,7 @@ def search_registers(ctx):
             ctx.disagreement("corr:eq:register", "model prog_eq %s vs implementation %s on second-segment programs" % (list(me), list(ie)), data)
 
 
-def replay(ctx, data):
+def replay_old(ctx, data):
     d = data["data"]
     p, q = d["p"], d["q"]
     if d.get("check") == "ff":
@@ -521,3 +503,1208 @@ def replay(ctx, data):
     ss = same_state(p, q)
     print("same gaussian state:", ss)
     return bool(r and ss is False)
+
+
+# =====================================================================================================================================
+# Hardening round: extended program family (array / symbolic parameters, multi-mode operations, measurements with options, New / Del,
+# compile targets, TDM programs), a reference model of program_equivalence evaluated on the SPEC (independent of the implementation's
+# Command / DAG code), and one judge used by every new stream and by replay.
+#
+# extended command: [name, params, modes, dagger] (+ optional 5th element {"select": [...], "dark_counts": [...]});
+# parameters: number | {"re","im"} | {"par": mode, "mul", "add"} (measured) | {"free": name, "mul", "add"} (free parameter);
+# Interferometer / PassiveChannel: params = [Re U, Im U] (ONE array parameter); Gaussian: params = [V, r] (two array parameters);
+# spec keys: n, cmds, bind {name: value} (free-parameter values, missing = unbound), compile (compiler name);
+# child programs: {"n0", "deleted", "cmds"}; TDM programs: {"tdm": {...}}.
+# =====================================================================================================================================
+XNAMES = NAMES + [x for x in ["Interferometer", "sMZgate", "MeasureFock", "MeasureThreshold", "MeasureHomodyne", "MeasureHeterodyne", "_New_modes", "_Delete", "Gaussian", "GraphEmbed"] if x not in NAMES]
+ARRAY_OPS = ("Interferometer", "PassiveChannel")
+SYMMETRIC_2 = ("S2gate", "CZgate", "CKgate")
+FOCK_ONLY = ("CKgate", "Kgate", "Vgate", "Fock", "MeasureThreshold")
+COMPILERS = [None, "gaussian", "fock", "bosonic"]
+PERTURB = [0.5, -0.25, 1e-3, 2e-5, 3e-6, -4e-6, 2e-6, 1.5e-6, 4e-7, -3e-8, 5e-9]
+
+
+def _cmd_opts(c):
+    return c[4] if len(c) > 4 and c[4] else {}
+
+
+def _is_sym(x):
+    return isinstance(x, dict) and ("par" in x or "free" in x)
+
+
+def x_param(p, regs, prog):
+    if isinstance(p, dict):
+        if "re" in p:
+            return complex(p["re"], p["im"])
+        if "par" in p:
+            return p.get("mul", 1.0) * regs[p["par"]].par + p.get("add", 0.0)
+        if "free" in p:
+            e = prog.params(p["free"])
+            if p.get("mul", 1.0) != 1.0:
+                e = p["mul"] * e
+            if p.get("add", 0.0) != 0.0:
+                e = e + p["add"]
+            return e
+    return p
+
+
+def x_make_op(name, params, dagger, regs, prog, opts):
+    from strawberryfields import ops
+    if name in ("MeasureFock", "MeasureThreshold"):
+        kw = {k: list(v) for k, v in (opts or {}).items() if v is not None}
+        return getattr(ops, name)(**kw)
+    if name == "Interferometer":
+        return ops.Interferometer(np.array(params[0], dtype=float) + 1j * np.array(params[1], dtype=float))
+    if name == "Gaussian":
+        return ops.Gaussian(np.array(params[0], dtype=float), np.array(params[1], dtype=float), decomp=False)
+    if name in sfgen.MEASURE_SEL or name == "PassiveChannel":
+        return sfgen.make_op(name, params, dagger, regs)
+    op = getattr(ops, name)(*[x_param(p, regs, prog) for p in params])
+    return op.H if dagger else op
+
+
+def free_names(spec):
+    return sorted({x["free"] for c in spec.get("cmds", []) for x in c[1] if isinstance(x, dict) and "free" in x})
+
+
+def x_bind(prog, spec):
+    """FreeParameter objects are sympy symbols and therefore shared by name between ALL programs: set (or clear) the value explicitly."""
+    bind = spec.get("bind") or {}
+    for nm in free_names(spec):
+        prog.free_params[nm].val = bind.get(nm)
+
+
+def x_build(spec, name="p"):
+    import strawberryfields as sf
+    from strawberryfields import ops
+    if "tdm" in spec:
+        return tdm_build(spec)
+    if "n0" in spec:
+        return build_child(spec)[1]
+    prog = sf.Program(spec["n"], name=name)
+    with prog.context as q:
+        regs = list(q)
+        for c in spec["cmds"]:
+            nm, params, modes, dag = c[:4]
+            if nm == "New":
+                (r,) = ops.New(1)
+                assert r.ind == modes[0] == len(regs), (r.ind, modes, len(regs))
+                regs.append(r)
+                continue
+            if nm == "Del":
+                ops.Del | regs[modes[0]]
+                continue
+            x_make_op(nm, params, dag, regs, prog, _cmd_opts(c)) | tuple(regs[m] for m in modes)
+    x_bind(prog, spec)
+    if spec.get("compile"):
+        prog = prog.compile(compiler=spec["compile"])
+    return prog
+
+
+def spec_needs_fock(spec):
+    for c in spec["cmds"]:
+        if c[0] in FOCK_ONLY or (c[0] == "MeasureFock" and _cmd_opts(c).get("select") is not None):
+            return True
+    return False
+
+
+def spec_has_measurement(spec):
+    return any(c[0].startswith("Measure") for c in spec.get("cmds", []))
+
+
+def x_state(spec, P=None):
+    """What the program computes: the final state (under a fixed seed of numpy's global generator, which post-selected homodyne uses)."""
+    import strawberryfields as sf
+    if "tdm" in spec:
+        return tdm_run(spec)
+    if "n0" in spec:
+        return ("gaussian",) + tuple(run_child(spec))
+    s = dict(spec)
+    s.pop("compile", None)  # a compile target does not change the computation; engines re-compile for their own backend anyway
+    prog = P if P is not None and not spec.get("compile") else x_build(s)
+    x_bind(prog, s)
+    np.random.seed(4321)
+    if spec_needs_fock(s):
+        st = sf.Engine("fock", backend_options={"cutoff_dim": 5}).run(prog).state
+        return ("fock", np.array(st.dm()))
+    st = sf.Engine("gaussian").run(prog).state
+    return ("gaussian", np.array(st.means()), np.array(st.cov()))
+
+
+def x_differ(p, q, tol, P=None, Q=None):
+    """True / False, or None when a program cannot be run (unbound parameters, unsupported operation, ...)."""
+    try:
+        a = x_state(p, P)
+        b = x_state(q, Q)
+    except Exception:
+        return None
+    if a[0] != b[0] or any(np.shape(x) != np.shape(y) for x, y in zip(a[1:], b[1:])):
+        return True
+    return not all(np.allclose(x, y, atol=tol, rtol=0) for x, y in zip(a[1:], b[1:]))
+
+
+# ---- canonical view of a spec ---------------------------------------------------------------------------------------------------------
+def canon_op(c):
+    """-> (class name as the implementation sees it, list of parameters (op.p), measurement options (select, dark_counts))"""
+    nm, params = c[0], c[1]
+    o = _cmd_opts(c)
+    if nm == "MeasureHomodyneSel":
+        return "MeasureHomodyne", [params[0]], ((float(params[1]),), None)
+    if nm == "MeasureHeterodyneSel":
+        return "MeasureHeterodyne", [], ((complex(params[0], params[1]),), None)
+    if nm in ("MeasureFock", "MeasureThreshold"):
+        sel, dc = o.get("select"), o.get("dark_counts")
+        return nm, [], (tuple(sel) if sel is not None else None, tuple(dc) if dc is not None else None)
+    if nm in ARRAY_OPS:
+        return nm, [{"arr": [params[0], params[1]]}], (None, None)
+    if nm == "Gaussian":
+        return nm, [{"arr": [params[0], None]}, {"arr": [params[1], None]}], (None, None)
+    if nm == "New":
+        return "_New_modes", [], (None, None)
+    if nm == "Del":
+        return "_Delete", [], (None, None)
+    return nm, list(params), (None, None)
+
+
+def canon_param(x, side):
+    if isinstance(x, dict):
+        if "arr" in x:
+            return ("arr", repr(x["arr"]))
+        if "re" in x:
+            return ("c", float(x["re"]), float(x["im"]))
+        if "par" in x:
+            return ("par", side, x["par"], float(x.get("mul", 1.0)), float(x.get("add", 0.0)))  # measured parameters of different programs are different symbols
+        if "free" in x:
+            return ("free", x["free"], float(x.get("mul", 1.0)), float(x.get("add", 0.0)))
+    return ("num", float(x))
+
+
+def final_register(spec):
+    if "n0" in spec:
+        live = [i for i in range(spec["n0"]) if i not in spec["deleted"]]
+    else:
+        live = list(range(spec["n"]))
+    for c in spec["cmds"]:
+        if c[0] == "New":
+            live.append(c[2][0])
+        elif c[0] == "Del":
+            live.remove(c[2][0])
+    return live
+
+
+def canon_cmd(c, side):
+    cls, plist, options = canon_op(c)
+    return {"class": cls, "params": [canon_param(x, side) for x in plist], "modes": list(c[2]), "dagger": bool(c[3]), "options": options}
+
+
+def ref_eq(p, q, same_object=False):
+    """Reference verdict for `==` (the statement proved about coq/C18/Model.v: structural identity) and the first aspect that differs."""
+    if p.get("compile") != q.get("compile"):
+        return False, "target"
+    if final_register(p) != final_register(q):
+        return False, "register"
+    if len(p["cmds"]) != len(q["cmds"]):
+        return False, "length"
+    for a, b in zip(p["cmds"], q["cmds"]):
+        ca, cb = canon_cmd(a, "L"), canon_cmd(b, "L" if same_object else "R")
+        for k in ("class", "params", "modes", "dagger", "options"):
+            if ca[k] != cb[k]:
+                return False, k
+    return True, None
+
+
+# ---- reference model of program_equivalence ---------------------------------------------------------------------------------------------
+class Unbound(Exception):
+    pass
+
+
+def last_selects(spec):
+    out = {}
+    for c in spec["cmds"]:
+        if c[0] == "MeasureHomodyneSel":
+            out[c[2][0]] = float(c[1][1])
+    return out
+
+
+def ref_value(x, env):
+    if isinstance(x, dict):
+        if "arr" in x:
+            re_, im_ = x["arr"]
+            return np.array(re_, dtype=float) + (1j * np.array(im_, dtype=float) if im_ is not None else 0.0)
+        if "re" in x:
+            return complex(x["re"], x["im"])
+        key, table = ("par", env["measured"]) if "par" in x else ("free", env["bind"])
+        v = table.get(x[key])
+        if v is None:
+            raise Unbound(x[key])
+        return x.get("mul", 1.0) * v + x.get("add", 0.0)
+    return x
+
+
+def ref_graph(spec, compare_params, ran, relax):
+    env = {"bind": spec.get("bind") or {}, "measured": last_selects(spec) if ran else {}}
+    nodes = []
+    for c in spec["cmds"]:
+        cls, plist, options = canon_op(c)
+        deps = set(c[2])
+        if "deps" not in relax:
+            deps |= {x["par"] for x in c[1] if isinstance(x, dict) and "par" in x}
+        try:
+            pv = [ref_value(x, env) for x in plist]
+        except Unbound:
+            if compare_params:
+                raise
+            pv = None
+        nodes.append({"cls": cls, "dag": bool(c[3]), "modes": list(c[2]), "deps": deps, "pv": pv, "opts": options,
+                      "symbolic": any(_is_sym(x) for x in plist)})
+    for nd in nodes:
+        nd["w"] = ref_wire(nd, relax)
+    grid = {}
+    for i, nd in enumerate(nodes):
+        for m_ in sorted(nd["deps"]):
+            grid.setdefault(m_, []).append(i)
+    edges = {(w[k - 1], w[k]) for w in grid.values() for k in range(1, len(w))}
+    return nodes, edges
+
+
+def ref_wire(nd, relax):
+    """the node attribute `w`: the ordered wires for operations that are not symmetric under permuting their modes, else 0"""
+    if "wires" in relax:
+        return 0
+    cls, modes = nd["cls"], list(nd["modes"])
+    if "strict" in relax or ("strict-gates" in relax and not cls.startswith("Measure")):
+        return modes  # every operation made sensitive to the labels (and order) of its modes
+    if "strict-measure" in relax and cls.startswith("Measure") and len(modes) > 1 and nd["opts"] != (None, None):
+        return modes
+    if cls == "CXgate":
+        if nd["pv"] is None:
+            return modes  # value unknown: the order has to count
+        return 0 if np.allclose(nd["pv"][0], 0) else modes
+    if cls == "BSgate":
+        if nd["pv"] is None:
+            return modes
+        bs = [x % np.pi for x in nd["pv"]]
+        return 0 if np.allclose(bs, [np.pi / 4, np.pi / 2]) else modes
+    if len(modes) > 1 and cls not in SYMMETRIC_2 and not cls.startswith("Measure"):
+        return modes
+    return 0
+
+
+def ref_match(a, b, compare_params, atol, rtol, relax):
+    if "class" not in relax and a["cls"] != b["cls"]:
+        return False
+    if "dagger" not in relax and a["dag"] != b["dag"]:
+        return False
+    if a["w"] != b["w"]:
+        return False
+    if compare_params:
+        if "params" not in relax:
+            if len(a["pv"]) != len(b["pv"]):
+                return False
+            for x, y in zip(a["pv"], b["pv"]):
+                if np.shape(x) != np.shape(y) or not np.allclose(x, y, atol=atol, rtol=rtol):
+                    return False
+        if "options" not in relax and a["opts"] != b["opts"]:
+            return False
+    return True
+
+
+def _iso(n1, e1, n2, e2, match):
+    if len(n1) != len(n2) or len(e1) != len(e2):
+        return False
+    N = len(n1)
+    cand = [[j for j in range(N) if match(n1[i], n2[j])] for i in range(N)]
+    if any(not c for c in cand):
+        return False
+    order = sorted(range(N), key=lambda i: len(cand[i]))
+    f, used = {}, set()
+
+    def rec(t):
+        if t == N:
+            return True
+        i = order[t]
+        for j in cand[i]:
+            if j in used:
+                continue
+            if all((((i, k) in e1) == ((j, fk) in e2)) and (((k, i) in e1) == ((fk, j) in e2)) for k, fk in f.items()):
+                f[i] = j
+                used.add(j)
+                if rec(t + 1):
+                    return True
+                del f[i]
+                used.discard(j)
+        return False
+    return rec(0)
+
+
+def ref_equiv(p, q, cfg=None, ran=False, relax=()):
+    """Reference verdict of prog_p.equivalence(prog_q, **cfg): True / False, or None when a parameter has no value (the comparison of
+    parameter values is then impossible: ParameterError is the legitimate answer)."""
+    cfg = cfg or {}
+    cp = cfg.get("compare_params", True)
+    atol, rtol = cfg.get("atol", 1e-6), cfg.get("rtol", 0)
+    try:
+        n1, e1 = ref_graph(p, cp, ran, relax)
+        n2, e2 = ref_graph(q, cp, ran, relax)
+    except Unbound:
+        return None
+    return _iso(n1, e1, n2, e2, lambda a, b: ref_match(a, b, cp, atol, rtol, relax))
+
+
+def equiv_aspect(p, q, cfg, ran):
+    """which single aspect the implementation must have ignored to call p and q equivalent"""
+    for r in ("dagger", "options", "params", "wires", "deps", "class"):
+        if ref_equiv(p, q, cfg, ran, relax=(r,)):
+            if r == "wires":
+                # name the operation whose wires differ (position by position when the programs have the same shape)
+                if len(p["cmds"]) == len(q["cmds"]):
+                    for a, b in zip(p["cmds"], q["cmds"]):
+                        if a[2] != b[2] and len(a[2]) > 1:
+                            return "wires:" + canon_op(a)[0]
+                return "wires"
+            return r
+    if len(p["cmds"]) != len(q["cmds"]):
+        return "length"
+    return "structure"
+
+
+def raise_site(p, q, exc, cfg):
+    cmds = p.get("cmds", []) + q.get("cmds", [])
+    if cfg is None and isinstance(exc, ValueError) and any(c[0] in ARRAY_OPS + ("Gaussian",) for c in cmds):
+        return "array-parameter"
+    if isinstance(exc, TypeError) and any(c[0] == "CXgate" and any(_is_sym(x) for x in c[1]) for c in cmds):
+        return "CXgate-symbolic"
+    if type(exc).__name__ == "ParameterError" and cfg and cfg.get("compare_params") is False and any(c[0] == "BSgate" and any(_is_sym(x) for x in c[1]) for c in cmds):
+        return "BSgate-unbound"
+    if isinstance(exc, ValueError) and any(c[0] == "Gaussian" for c in cmds):
+        return "ragged-array-parameters"
+    if isinstance(exc, ValueError) and any(c[0] in ARRAY_OPS for c in cmds):
+        return "array-parameter"
+    return "other"
+
+
+def cfg_tag(cfg):
+    return ",".join("%s=%s" % (k, cfg[k]) for k in sorted(cfg)) if cfg else "default"
+
+
+def judge_pair(d, want_info=False):
+    """d = {"check": "x", "kind", "p", "q", "ran": bool, "calls": [kwargs of equivalence, ...], "skip_eq": bool}
+    -> list of (severity 'cex' | 'dis', signature, text): every way in which ==, equivalence fail the property (or leave the reference) on this pair."""
+    import strawberryfields as sf
+    from strawberryfields.parameters import ParameterError
+    p, q, kind, ran = d["p"], d["q"], d.get("kind", "?"), bool(d.get("ran"))
+    calls = d.get("calls") or [{}]
+    issues = []
+    info = {"eq": None, "equiv": {}}
+    P, Q, P2 = x_build(p), x_build(q), x_build(p)
+    for X, s in ((P, p), (Q, q), (P2, p)):
+        x_bind(X, s)
+    has_meas = spec_has_measurement(p) or spec_has_measurement(q)
+    strict_tol = 1e-6 if has_meas else 1e-10
+    state_cache = {}
+
+    def differ(tol):
+        if "d" not in state_cache:
+            try:
+                state_cache["d"] = (x_state(p), x_state(q))
+            except Exception:
+                state_cache["d"] = None
+        if state_cache["d"] is None:
+            return None
+        a, b = state_cache["d"]
+        if a[0] != b[0] or any(np.shape(x) != np.shape(y) for x, y in zip(a[1:], b[1:])):
+            return True
+        return not all(np.allclose(x, y, atol=tol, rtol=0) for x, y in zip(a[1:], b[1:]))
+
+    def differ_rel(rtol_):
+        r = differ(0.0)
+        if not r:
+            return r
+        a, b = state_cache["d"]
+        if a[0] != b[0] or any(np.shape(x) != np.shape(y) for x, y in zip(a[1:], b[1:])):
+            return True
+        return not all(np.allclose(x, y, atol=rtol_ * (1.0 + float(np.max(np.abs(x))) if np.size(x) else 1.0), rtol=0) for x, y in zip(a[1:], b[1:]))
+
+    if ran:
+        # run both (post-selected measurements: deterministic) so that measured parameters have values
+        try:
+            for X in (P, Q, P2):
+                np.random.seed(4321)
+                sf.Engine("gaussian").run(X)
+        except Exception as e:
+            issues = [("cex", "run:raises:" + type(e).__name__, "running a generated feed-forward program raised %r" % e)]
+            return (issues, info) if want_info else issues
+
+    # ---- == -------------------------------------------------------------------------------------------------------------
+    if not d.get("skip_eq"):
+        want, aspect = ref_eq(p, q)
+        try:
+            r1, r2, rr = bool(P == Q), bool(Q == P), bool(P == P)
+            rc = bool(P == P2)
+        except Exception as e:
+            r1 = None
+            issues.append(("cex", "eq:raises:%s:%s" % (type(e).__name__, raise_site(p, q, e, None)), "== raised %r (it must answer; p == p is not even True)" % e))
+        if r1 is not None:
+            info["eq"] = (r1, r2, rr)
+            if r1 != r2:
+                issues.append(("cex", "eq:asymmetric", "p == q is %s but q == p is %s ('%s' pair)" % (r1, r2, kind)))
+            if not rr:
+                issues.append(("cex", "eq:irreflexive", "p == p is False"))
+            if (r1 or r2) and not want:
+                dd = differ(strict_tol)
+                issues.append(("cex" if dd else "dis", ("eq:accepts:" if dd else "corr:eq:accepts:") + aspect,
+                               "Program.__eq__ reports equal although the programs differ in %s%s" % (aspect, " and compute different states" if dd else " (reference: not equal)")))
+            if want and not (r1 and r2):
+                issues.append(("dis", "corr:eq:rejects:" + kind, "Program.__eq__ reports different for structurally identical programs ('%s' pair)" % kind))
+            if rc != ref_eq(p, p)[0]:
+                issues.append(("dis", "corr:eq:rebuilt-copy", "p == (rebuilt copy of p) is %s, reference %s" % (rc, ref_eq(p, p)[0])))
+
+    # ---- equivalence -----------------------------------------------------------------------------------------------------
+    for cfg in calls:
+        tag = cfg_tag(cfg)
+        sfx = "" if not cfg else ":" + ("noparams" if cfg.get("compare_params") is False else "tolerance")
+        w12, w21, wpp = ref_equiv(p, q, cfg, ran), ref_equiv(q, p, cfg, ran), ref_equiv(p, p, cfg, ran)
+        got = []
+        bad = False
+        for X, Y, want in ((P, Q, w12), (Q, P, w21), (P, P2, wpp)):
+            try:
+                got.append(bool(X.equivalence(Y, **cfg)))
+            except ParameterError as e:
+                got.append(None)
+                if want is not None:
+                    bad = True
+                    issues.append(("cex", "equiv:raises:ParameterError:%s" % raise_site(p, q, e, cfg), "equivalence(%s) raised %r although no parameter value is needed for the comparison" % (tag, e)))
+                    break
+            except Exception as e:
+                bad = True
+                issues.append(("cex", "equiv:raises:%s:%s" % (type(e).__name__, raise_site(p, q, e, cfg)), "equivalence(%s) raised %r" % (tag, e)))
+                break
+        if bad:
+            continue
+        e1, e2, er = got
+        info["equiv"][tag] = [e1, e2, er]
+        if (e1 is None) != (w12 is None) or (e2 is None) != (w21 is None):
+            issues.append(("dis", "corr:equiv:parameter-error" + sfx, "equivalence(%s) answered %s / %s where the reference says %s / %s (None = parameter without value)" % (tag, e1, e2, w12, w21)))
+            continue
+        if e1 is None or e2 is None:
+            continue
+        if w12 != w21 and e1 is False and e2 is False:
+            continue  # a symmetrised tolerance test answers False in both directions here
+        if e1 != e2:
+            if w12 != w21 and (e1, e2) == (w12, w21):
+                issues.append(("cex", "equiv:asymmetric:rtol", "equivalence(%s) is not symmetric: p~q %s, q~p %s (the tolerance rtol*|b| uses the second program's value)" % (tag, e1, e2)))
+            else:
+                issues.append(("cex", "equiv:asymmetric" + sfx, "equivalence(%s) is not symmetric on a '%s' pair: p~q %s, q~p %s" % (tag, kind, e1, e2)))
+        if er is False and wpp:
+            issues.append(("cex", "equiv:irreflexive" + sfx, "a program is not equivalent(%s) to a rebuilt copy of itself" % tag))
+        for e, w, a_, b_ in ((e1, w12, p, q), (e2, w21, q, p)):
+            if e and not w:
+                asp = equiv_aspect(a_, b_, cfg, ran)
+                # parameters are not meant to be looked at with compare_params=False: a difference in them is no evidence
+                dd = differ(strict_tol) if not (cfg.get("compare_params") is False and not ref_eq_params_same(p, q)) else None
+                issues.append(("cex" if dd else "dis", ("equiv:accepts:" if dd else "corr:equiv:accepts:") + asp + sfx,
+                               "equivalence(%s) reports True although the programs differ in %s%s" % (tag, asp, " and compute different states" if dd else " (reference: not equivalent)")))
+                break
+            if w and not e:
+                if measure_options_order_differs(a_, b_, cfg, ran):
+                    break  # stricter than the reference, and sound: the i-th select / dark-count value belongs to the i-th listed mode
+                if kind == "swap":
+                    issues.append(("cex", "equiv:swap-breaks" + sfx, "swapping adjacent independent commands made the programs inequivalent (%s)" % tag))
+                else:
+                    issues.append(("dis", "corr:equiv:rejects:" + kind + sfx, "equivalence(%s) reports False on a '%s' pair where the reference says True" % (tag, kind)))
+                break
+        if not cfg and e1 and w12 and p != q and kind not in ("param", "tolerance", "sym-param", "nmodes"):
+            # implementation and reference agree on 'equivalent': the states must agree (parameters may differ within atol: loose comparison)
+            if differ_rel(1e-4):
+                sig = classify_both_true(p, q, kind, ran)
+                issues.append(("cex", sig, "equivalence reports True for programs that differ by '%s' and give different states" % kind))
+    return (issues, info) if want_info else issues
+
+
+def measure_options_order_differs(p, q, cfg, ran):
+    """p ~ q only because multi-mode measurements with per-mode options are matched regardless of the order of their modes"""
+    multi = any(c[0] in ("MeasureFock", "MeasureThreshold") and len(c[2]) > 1 and any(v is not None for v in _cmd_opts(c).values()) for c in p["cmds"] + q["cmds"])
+    return multi and not ref_equiv(p, q, cfg, ran, relax=("strict-measure",))
+
+
+def ref_eq_params_same(p, q):
+    """the two specs carry the same parameters position by position (so that a state difference cannot come from the parameters)"""
+    if len(p["cmds"]) != len(q["cmds"]):
+        return True
+    return sorted(repr(c[1]) for c in p["cmds"]) == sorted(repr(c[1]) for c in q["cmds"])
+
+
+def report(ctx, issues, data):
+    for sev, sig, what in issues:
+        (ctx.counterexample if sev == "cex" else ctx.disagreement)(sig, what, dict(data, signature=sig))
+
+
+def classify_both_true(p, q, kind, ran):
+    """p and q are reported equivalent by implementation AND reference although their states differ.  The recorded weakness is exactly:
+    operations that are symmetric under permuting their modes are matched regardless of which modes they act on.  With every operation
+    made label-sensitive the reference must then say 'not equivalent'; otherwise this is something else and gets its own signature."""
+    if ref_equiv(p, q, {}, ran, relax=("strict",)):
+        return "equiv:same-labelled-dag-different-states:" + kind
+    if any(c[0] in ("MeasureFock", "MeasureThreshold") and len(c[2]) > 1 and any(v is not None for v in _cmd_opts(c).values()) for c in p["cmds"] + q["cmds"]) and \
+            ref_equiv(p, q, {}, ran, relax=("strict-gates",)):
+        return "equiv:measure-options-mode-order"
+    return "equiv:modes" if kind in ("modes", "modes-order") else "equiv:relabel"
+
+
+# ---- generators ------------------------------------------------------------------------------------------------------------------------
+def rand_unitary(rng, k):
+    rs = np.random.RandomState(rng.randrange(2 ** 31))
+    qm, r = np.linalg.qr(rs.randn(k, k) + 1j * rs.randn(k, k))
+    U = qm * (np.diag(r) / np.abs(np.diag(r)))
+    return [U.real.tolist(), U.imag.tolist()]
+
+
+def arr_times_phase(params, j, delta):
+    """U -> U . diag(1, .., e^{i delta} at j, .., 1): still unitary / still a contraction"""
+    U = np.array(params[0], dtype=float) + 1j * np.array(params[1], dtype=float)
+    D = np.eye(U.shape[0], dtype=complex)
+    D[j % U.shape[0], j % U.shape[0]] = np.exp(1j * delta)
+    V = U @ D
+    return [V.real.tolist(), V.imag.tolist()]
+
+
+def x_extra_cmd(rng, n):
+    r = rng.random()
+    if r < 0.25 and n >= 2:
+        k = rng.randint(2, min(3, n))
+        return ["Interferometer", rand_unitary(rng, k), rng.sample(range(n), k), False]
+    if r < 0.4:
+        return sfgen.random_cmd(rng, n, ["PassiveChannel"])
+    if r < 0.55 and n >= 2:
+        return ["sMZgate", [sfgen.draw_param(rng, "a"), sfgen.draw_param(rng, "a")], rng.sample(range(n), 2), False]
+    k = min(n, 2 if rng.random() < 0.7 else 1)
+    return ["MeasureFock", [], rng.sample(range(n), k), False, {"select": None, "dark_counts": [rng.choice([0.0, 0.1, 0.5, 0.9]) for _ in range(k)]}]
+
+
+def x_random_spec(rng, max_n=3, max_cmds=6):
+    p = sfgen.random_spec(rng, max_n=max_n + (rng.random() < 0.25), max_cmds=max_cmds, exact=rng.random() < 0.3)
+    if rng.random() < 0.35:
+        for _ in range(rng.randint(1, 2)):
+            p["cmds"].insert(rng.randint(0, len(p["cmds"])), x_extra_cmd(rng, p["n"]))
+    return p
+
+
+def touched(c):
+    return set(c[2]) | {x["par"] for x in c[1] if isinstance(x, dict) and "par" in x}
+
+
+X_KINDS = ["same", "prefix", "extend", "dagger", "param", "param", "modes", "modes", "class", "swap", "swap", "swap", "relabel", "dropmid", "select", "swapdep", "dup", "dark", "measure-order",
+           "param-neg", "param-shift", "param-swap", "select-drop", "measure-subset", "nmodes"]
+
+
+def x_mutate(rng, spec, kinds=None):
+    """(kind, q): q a variant of spec (spec itself may get commands inserted, as in `mutate`); a kind that does not apply is re-drawn"""
+    n = spec.get("n", 0)
+    plain = "live" not in spec  # programs with New / Del: no insertions
+    cm = spec["cmds"]
+    if plain and n >= 2 and rng.random() < 0.35:
+        a, b = rng.sample(range(n), 2)
+        cm.insert(rng.randint(0, len(cm)), ["BSgate", list(rng.choice(SPECIAL_BS)), [a, b], False])
+    if plain and rng.random() < 0.3:
+        cm.insert(rng.randint(0, len(cm)), sfgen.random_cmd(rng, n, list(sfgen.MEASURE_SEL), 0.0))
+    for _ in range(4):
+        want = rng.choice(kinds or X_KINDS)
+        kind, q = x_variant(rng, spec, want)
+        if kind != "same" or want == "same":
+            break
+    return kind, q
+
+
+def x_variant(rng, spec, kind):
+    q = copy.deepcopy(spec)
+    cm = q["cmds"]
+    n = q.get("n", 0)
+    plain = "live" not in spec
+    gates = [i for i, c in enumerate(cm) if c[0] in sfgen.GAUSSIAN_GATES]
+    if kind == "select":
+        idx = [i for i, c in enumerate(cm) if c[0] in sfgen.MEASURE_SEL]
+        if not idx:
+            return "same", q
+        i = rng.choice(idx)
+        cm[i][1][-1] = cm[i][1][-1] + rng.choice([0.5, -0.3, 1e-3, 1e-5])
+    elif kind == "select-drop":  # the same measurement without post-selection
+        idx = [i for i, c in enumerate(cm) if c[0] == "MeasureHomodyneSel"]
+        if not idx:
+            return "same", q
+        i = rng.choice(idx)
+        if rng.random() < 0.5:
+            spec["cmds"][i][1][1] = 0.0  # post-selecting on the value 0 is still a post-selection
+        cm[i] = ["MeasureHomodyne", [cm[i][1][0]], cm[i][2], False]
+    elif kind in ("param-neg", "param-shift", "param-swap"):
+        idx = [i for i, c in enumerate(cm) if c[1] and c[0] not in ARRAY_OPS and all(not isinstance(x, dict) for x in c[1]) and (kind != "param-swap" or len(c[1]) == 2)]
+        if not idx:
+            return "same", q
+        i = rng.choice(idx)
+        j = rng.randrange(len(cm[i][1]))
+        if kind == "param-neg":
+            cm[i][1][j] = -cm[i][1][j]
+        elif kind == "param-shift":
+            cm[i][1][j] = cm[i][1][j] + rng.choice([math.pi, -math.pi, 2 * math.pi, math.pi / 2])
+        else:
+            cm[i][1] = [cm[i][1][1], cm[i][1][0]]
+        if cm[i][0] in ("Dgate",) and cm[i][1][0] < 0:
+            return "same", q
+    elif kind == "dark":
+        idx = [i for i, c in enumerate(cm) if c[0] == "MeasureFock" and _cmd_opts(c).get("dark_counts") is not None]
+        if not idx:
+            return "same", q
+        i = rng.choice(idx)
+        dc = cm[i][4]["dark_counts"]
+        if len(dc) > 1 and dc[0] != dc[-1] and rng.random() < 0.5:
+            dc.reverse()
+        else:
+            j = rng.randrange(len(dc))
+            dc[j] = round(dc[j] + rng.choice([0.05, 0.3, 1e-3]), 6)
+    elif kind == "nmodes" and plain:  # the same commands in a larger register (== looks at the register; equivalence never does)
+        q["n"] = n + 1
+    elif kind == "measure-subset":  # a multi-mode measurement on fewer modes
+        idx = [i for i, c in enumerate(cm) if c[0].startswith("Measure") and len(c[2]) > 1]
+        if not idx:
+            return "same", q
+        i = rng.choice(idx)
+        cm[i][2] = cm[i][2][:-1]
+        if len(cm[i]) > 4 and cm[i][4]:
+            cm[i][4] = {k: (v[:-1] if v is not None else None) for k, v in cm[i][4].items()}
+    elif kind == "measure-order":
+        idx = [i for i, c in enumerate(cm) if c[0].startswith("Measure") and len(c[2]) > 1]
+        if not idx:
+            return "same", q
+        i = rng.choice(idx)
+        cm[i][2] = list(reversed(cm[i][2]))
+    elif kind == "prefix" and cm:
+        del cm[rng.randrange(len(cm)):]
+    elif kind == "extend":
+        live = spec.get("live") or list(range(n))
+        c = sfgen.random_cmd(rng, len(live), list(sfgen.GAUSSIAN_GATES))
+        c[2] = [live[m] for m in c[2]]
+        cm.append(c)
+    elif kind == "dup" and cm:
+        i = rng.randrange(len(cm))
+        if cm[i][0] in ("New", "Del"):
+            return "same", q
+        cm.insert(i, copy.deepcopy(cm[i]))
+    elif kind == "dagger" and gates:
+        i = rng.choice(gates)
+        cm[i][3] = not cm[i][3]
+    elif kind == "param" and cm:
+        idx = [i for i, c in enumerate(cm) if c[1]]
+        if not idx:
+            return "same", q
+        i = rng.choice(idx)
+        delta = rng.choice(PERTURB)
+        if cm[i][0] in ARRAY_OPS:
+            cm[i][1] = arr_times_phase(cm[i][1], rng.randrange(3), delta)
+        else:
+            j = rng.randrange(len(cm[i][1]))
+            x = cm[i][1][j]
+            if isinstance(x, dict):
+                x["add"] = x.get("add", 0.0) + delta
+            else:
+                cm[i][1][j] = x + delta
+    elif kind == "modes" and cm and n >= 2:
+        multi = [k for k, c in enumerate(cm) if len(c[2]) >= 2]
+        cand = [k for k, c in enumerate(cm) if c[0] not in ("New", "Del")]
+        if not cand:
+            return "same", q
+        i = rng.choice(multi) if multi and rng.random() < 0.6 else rng.choice(cand)
+        nm = len(cm[i][2])
+        live = spec.get("live") or list(range(n))
+        r = rng.random()
+        if nm >= 2 and r < 0.55:
+            old = list(cm[i][2])
+            new = list(reversed(old)) if nm == 2 or rng.random() < 0.5 else old[1:] + old[:1]
+            cm[i][2] = new
+            return kind, q
+        free = [m for m in live if m not in cm[i][2]]
+        if nm >= 2 and r < 0.8 and free:  # exactly one of the modes replaced
+            cm[i][2][rng.randrange(nm)] = rng.choice(free)
+            return kind, q
+        new = rng.sample(live, nm) if len(live) >= nm else list(cm[i][2])
+        if new == cm[i][2]:
+            new = new[1:] + new[:1] if nm >= 2 else [live[(live.index(new[0]) + 1) % len(live)]]
+        if new == cm[i][2]:
+            return "same", q
+        cm[i][2] = new
+    elif kind == "class" and cm:
+        i = rng.randrange(len(cm))
+        if cm[i][0] not in sfgen.GAUSSIAN_GATES:
+            return "same", q
+        nm, np_ = len(cm[i][2]), len(cm[i][1])
+        alts = [x for x, (m_, ks) in sfgen.GAUSSIAN_GATES.items() if m_ == nm and len(ks) == np_ and x != cm[i][0]]
+        if not alts:
+            return "same", q
+        cm[i][0] = rng.choice(alts)
+    elif kind in ("swap", "swapdep") and len(cm) >= 2:
+        indep = kind == "swap"
+        cand = [i for i in range(len(cm) - 1) if (not (touched(cm[i]) & touched(cm[i + 1]))) == indep and cm[i] != cm[i + 1]
+                and "New" not in (cm[i][0], cm[i + 1][0])]
+        if not cand:
+            return "same", q
+        i = rng.choice(cand)
+        cm[i], cm[i + 1] = cm[i + 1], cm[i]
+    elif kind == "relabel" and n >= 2 and plain:
+        perm = list(range(n))
+        rng.shuffle(perm)
+        if perm == list(range(n)):
+            return "same", q
+        for c in cm:
+            c[2] = [perm[m] for m in c[2]]
+            for x in c[1]:
+                if isinstance(x, dict) and "par" in x:
+                    x["par"] = perm[x["par"]]
+    elif kind == "dropmid" and len(cm) >= 2:
+        del cm[rng.randrange(len(cm) - 1)]
+    else:
+        kind = "same"
+    if q == spec:
+        kind = "same"
+    return kind, q
+
+
+TOL_CFGS = [{"atol": 1e-3}, {"atol": 1e-9}, {"atol": 0.0, "rtol": 1e-2}, {"atol": 1e-4, "rtol": 1e-3}]
+NONTRIVIAL_KINDS = ("prefix", "extend", "dagger", "swap", "dropmid", "relabel", "swapdep", "dup", "modes-order", "measure-order", "dark", "select-drop", "param-swap")
+
+
+def buildable(*specs):
+    try:
+        for s in specs:
+            x_build(s)
+        return True
+    except Exception:
+        return False
+
+
+def run_pairs(ctx, pairs, bucket, eq_batch=None):
+    """pairs: iterable of judge_pair inputs; records cases, reports issues; collects (p, q, impl ==) for the Coq model batch."""
+    for d in pairs:
+        if not buildable(d["p"], d["q"]):
+            ctx.case({"skipped": "not buildable", "kind": d.get("kind")}, bucket=bucket + "-unbuildable")
+            continue
+        try:
+            issues, info = judge_pair(d, want_info=True)
+        except Exception as e:  # a harness error must not pass silently
+            import traceback
+            ctx.obligation("judge:%s:%s" % (bucket, d.get("kind")), False, "%r\n%s\n%s" % (e, traceback.format_exc()[-1500:], json.dumps(d, default=repr)[:1500]))
+            continue
+        ctx.case({"kind": d["kind"], "p": d["p"], "q": d["q"], "verdicts": info}, nontrivial=d["kind"] in NONTRIVIAL_KINDS or bool(d.get("nontrivial")),
+                 bucket="%s-%s" % (bucket, d["kind"]))
+        report(ctx, issues, d)
+        if eq_batch is not None and info.get("eq") is not None:
+            eq_batch.append((d["p"], d["q"], info["eq"], d))
+
+
+def search_random2(ctx, eq_batch):
+    """random pairs from the extended family through ==, equivalence (default, compare_params=False, a user tolerance) and the reference"""
+    rng = ctx.rng
+
+    def gen():
+        for _ in range(ctx.budget(260, 2600)):
+            p = x_random_spec(rng)
+            kind, q = x_mutate(rng, p)
+            yield {"check": "x", "kind": kind, "p": p, "q": q, "calls": [{}, {"compare_params": False}, dict(rng.choice(TOL_CFGS))]}
+    run_pairs(ctx, gen(), "x", eq_batch)
+
+
+PI = math.pi
+BS_VALUES = [[PI / 4, PI / 2], [PI / 4, PI / 2 + 1e-3], [PI / 4 + 1e-3, PI / 2], [PI / 4, PI / 2 + 0.04], [PI / 4 - 0.03, PI / 2 - 0.04], [5 * PI / 4, PI / 2], [PI / 4, 3 * PI / 2],
+             [PI / 4, -PI / 2], [-3 * PI / 4, -PI / 2], [-PI / 4, PI / 2], [3 * PI / 4, PI / 2], [PI / 4, 0.0], [PI / 4, PI], [3 * PI / 4, 0.0], [0.3, PI / 2], [PI / 4, 0.3],
+             [PI / 2, PI / 2], [3 * PI / 4, PI], [0.0, 0.0], [PI / 4 + PI / 2, PI / 2 + PI / 2], [0.4, 0.2]]
+
+
+def multimode_families(rng):
+    fam = [("BSgate", v, 2) for v in BS_VALUES]
+    fam += [("BSgate", v, 2) for v in ([PI / 2, PI / 4], [PI / 4 + PI, PI / 2 + PI], [PI / 4, PI / 2 + 3e-5])]
+    fam += [("CXgate", [s], 2) for s in (0.0, 1e-9, 1e-3, 0.4, -0.7, PI, 2 * PI)]
+    fam += [("CZgate", [0.3], 2), ("S2gate", [0.3, 0.1], 2), ("MZgate", [0.3, 0.2], 2), ("MZgate", [PI / 2, PI / 2], 2), ("sMZgate", [0.3, 0.2], 2), ("CKgate", [0.3], 2)]
+    fam += [("Interferometer", None, 2), ("Interferometer", None, 3), ("PassiveChannel", None, 2), ("PassiveChannel", None, 3), ("Gaussian", None, 2)]
+    return fam
+
+
+def search_multimode(ctx, eq_batch):
+    """every multi-mode operation class, at the parameter values the comparison treats specially (and near them, and shifted by pi), on
+    permuted modes inside a random context: `equivalent` must agree with the reference and, when True, with the states"""
+    rng = ctx.rng
+
+    def gen():
+        for name, params, k in multimode_families(rng):
+            for rep in range(ctx.budget(2, 6)):
+                n = rng.randint(k, 3) if k < 3 else rng.randint(3, 4)
+                modes = rng.sample(range(n), k)
+                perm = list(reversed(modes)) if k == 2 or rep % 2 == 0 else modes[1:] + modes[:1]
+                free = [m for m in range(n) if m not in modes]
+                if free and rng.random() < 0.3:  # one mode replaced instead of a permutation
+                    perm = list(modes)
+                    perm[rng.randrange(k)] = rng.choice(free)
+                if name == "Gaussian":  # a two-mode covariance matrix (xxpp, hbar = 2) and mean vector: two array parameters of different shapes
+                    vx = [round(rng.uniform(0.6, 2.0), 3) for _ in range(2)]
+                    pr = [np.diag(vx + [round(1.0 / v + rng.uniform(0.0, 0.5), 3) for v in vx]).tolist(), [round(rng.uniform(-1, 1), 3) for _ in range(4)]]
+                elif params is None:
+                    pr = rand_unitary(rng, k) if name == "Interferometer" else sfgen.passive_T(rng, k)
+                else:
+                    pr = list(params)
+                dag = name in sfgen.GAUSSIAN_GATES and rng.random() < 0.25
+                ctxgates = [x for x in sfgen.GAUSSIAN_GATES if not (name == "CKgate" and x in ("MZgate",))]
+                pre = [sfgen.random_cmd(rng, n, ctxgates) for _ in range(rng.randint(1, 3))]
+                post = [sfgen.random_cmd(rng, n, ctxgates) for _ in range(rng.randint(0, 2))]
+                p = {"n": n, "cmds": pre + [[name, copy.deepcopy(pr), modes, dag]] + post}
+                q = {"n": n, "cmds": copy.deepcopy(pre) + [[name, copy.deepcopy(pr), perm, dag]] + copy.deepcopy(post)}
+                yield {"check": "x", "kind": "modes-order", "p": p, "q": q, "calls": [{}, {"compare_params": False}], "family": name}
+        # degenerate lengths: the empty program against a non-empty one, a single command against two
+        for _ in range(ctx.budget(3, 12)):
+            n = rng.randint(1, 3)
+            c = sfgen.random_cmd(rng, n, list(sfgen.GAUSSIAN_GATES))
+            c2 = sfgen.random_cmd(rng, n, list(sfgen.GAUSSIAN_GATES))
+            yield {"check": "x", "kind": "extend", "p": {"n": n, "cmds": []}, "q": {"n": n, "cmds": [c]}, "calls": [{}, {"compare_params": False}]}
+            yield {"check": "x", "kind": "extend", "p": {"n": n, "cmds": [c]}, "q": {"n": n, "cmds": [copy.deepcopy(c), c2]}, "calls": [{}, {"compare_params": False}]}
+    run_pairs(ctx, gen(), "mm", eq_batch)
+
+
+TOL_SITES = [("Dgate", [0.4, 0.3], 0), ("Dgate", [0.4, 0.3], 1), ("Sgate", [0.3, 0.2], 0), ("Sgate", [0.3, 0.2], 1), ("Rgate", [0.3], 0), ("Xgate", [0.3], 0), ("Zgate", [0.3], 0),
+             ("Pgate", [0.3], 0), ("BSgate", [0.4, 0.2], 0), ("BSgate", [0.4, 0.2], 1), ("S2gate", [0.3, 0.2], 0), ("S2gate", [0.3, 0.2], 1), ("MZgate", [0.3, 0.2], 0), ("MZgate", [0.3, 0.2], 1),
+             ("CXgate", [0.3], 0), ("CZgate", [0.3], 0), ("MeasureHomodyneSel", [0.3, 0.2], 0)]
+TOL_SWEEP_CFGS = [{}, {"atol": 1e-3}, {"atol": 1e-9}, {"atol": 0.0, "rtol": 0.05}, {"atol": 1e-4, "rtol": 1e-2}, {"rtol": 1e-3}]
+
+
+def search_tolerance(ctx, eq_batch):
+    """|a - b| <= atol + rtol |b| : parameter pairs well inside / well outside the tolerance, for the default and for user-given atol / rtol
+    (through Program.equivalence's keyword arguments), at every parameter position of the gate classes"""
+    rng = ctx.rng
+    combos = [(s, b, c, f) for s in TOL_SITES for b in (0.3, -2.5, 1.0) for c in range(len(TOL_SWEEP_CFGS)) for f in (0.45, 2.2)]
+    rng.shuffle(combos)
+
+    def gen():
+        for (name, base, j), b, ci, f in combos[:ctx.budget(90, len(combos))]:
+            cfg = dict(TOL_SWEEP_CFGS[ci])
+            tol = cfg.get("atol", 1e-6) + cfg.get("rtol", 0) * abs(b)
+            delta = f * tol * rng.choice([1, -1])
+            pr = list(base)
+            pr[j] = b
+            if name in ("Dgate",) and j == 0:
+                pr[j] = abs(b)
+            qr = list(pr)
+            qr[j] = pr[j] + delta
+            nm = sfgen.ALL[name][0]
+            n = rng.randint(nm, 3)
+            modes = rng.sample(range(n), nm)
+            pre = [["Sgate", [0.4, 0.3], [modes[0]], False], ["Dgate", [0.5, 0.1], [modes[-1]], False]]
+            if nm == 2:
+                pre.append(["BSgate", [0.5, 0.3], modes, False])
+            post = [sfgen.random_cmd(rng, n, list(sfgen.GAUSSIAN_GATES)) for _ in range(rng.randint(0, 2))]
+            p = {"n": n, "cmds": pre + [[name, pr, modes, False]] + post}
+            q = {"n": n, "cmds": copy.deepcopy(pre) + [[name, qr, modes, False]] + copy.deepcopy(post)}
+            yield {"check": "x", "kind": "tolerance", "p": p, "q": q, "calls": [cfg], "nontrivial": True, "inside": f < 1}
+        # the relative tolerance uses the SECOND program's value: 1.0 vs 1.051 with rtol = 0.05
+        for a, b in ((1.0, 1.051), (-2.0, -2.09)):
+            yield {"check": "x", "kind": "tolerance", "p": {"n": 1, "cmds": [["Rgate", [a], [0], False]]}, "q": {"n": 1, "cmds": [["Rgate", [b], [0], False]]},
+                   "calls": [{"atol": 0.0, "rtol": 0.05}], "nontrivial": True}
+    run_pairs(ctx, gen(), "tol", eq_batch)
+
+
+SYM_GATES = [("Rgate", 1, 1), ("Dgate", 1, 2), ("Sgate", 1, 2), ("Xgate", 1, 1), ("Zgate", 1, 1), ("Pgate", 1, 1), ("BSgate", 2, 2), ("S2gate", 2, 2), ("MZgate", 2, 2), ("CZgate", 2, 1)]
+
+
+def search_symbolic(ctx, eq_batch):
+    """free parameters: bound / unbound, renamed, replaced by their values; measured parameters before the run.  `==` compares symbols,
+    equivalence compares values (ParameterError when there is none), compare_params=False needs no value at all."""
+    rng = ctx.rng
+
+    def base():
+        n = rng.randint(2, 3)
+        cmds = [["Sgate", [0.4, 0.2], [0], False], ["Dgate", [0.3, 0.1], [1], False]]
+        names = ["a", "b"]
+        bind = {"a": round(rng.uniform(0.2, 0.9), 3), "b": round(rng.uniform(-0.9, -0.2), 3)}
+        used = set()
+        for _ in range(rng.randint(1, 4)):
+            gates = SYM_GATES + ([("CXgate", 2, 1)] if rng.random() < 0.08 else [])
+            name, nm, npar = rng.choice(gates)
+            modes = rng.sample(range(n), nm)
+            pr = [round(rng.uniform(0.1, 0.6), 3) for _ in range(npar)]
+            if rng.random() < 0.7:
+                nmz = rng.choice(names)
+                used.add(nmz)
+                pr[rng.randrange(npar)] = {"free": nmz, "mul": rng.choice([1.0, 1.0, 0.5, -1.0]), "add": rng.choice([0.0, 0.0, 0.25])}
+            cmds.append([name, pr, modes, name != "MZgate" and rng.random() < 0.2])
+        if not used:
+            cmds.append(["Rgate", [{"free": "a", "mul": 1.0, "add": 0.0}], [0], False])
+        return {"n": n, "cmds": cmds, "bind": bind}
+
+    def rename(s, table):
+        s = copy.deepcopy(s)
+        for c in s["cmds"]:
+            for x in c[1]:
+                if isinstance(x, dict) and "free" in x:
+                    x["free"] = table[x["free"]]
+        s["bind"] = {table[k]: v for k, v in s.get("bind", {}).items()}
+        return s
+
+    def gen():
+        for _ in range(ctx.budget(50, 500)):
+            p = base()
+            kind = rng.choice(["same", "rename", "rename-value", "unbound", "unbound-one", "numeric", "swap", "dagger", "modes", "param"])
+            q = copy.deepcopy(p)
+            if kind == "rename":
+                q = rename(p, {"a": "c", "b": "d"})
+            elif kind == "rename-value":
+                q = rename(p, {"a": "c", "b": "d"})
+                k = rng.choice(sorted(q["bind"]))
+                q["bind"][k] = q["bind"][k] + rng.choice([0.3, 1e-3, 3e-6])
+            elif kind == "unbound":
+                p["bind"] = {}
+                q["bind"] = {}
+                if rng.random() < 0.5:
+                    _, q = x_mutate(rng, p, ["swap", "dagger", "modes", "same", "prefix"])
+                    q["bind"] = {}
+            elif kind == "unbound-one":
+                q = rename(p, {"a": "c", "b": "d"})
+                q["bind"] = {}
+            elif kind == "numeric":
+                for c in q["cmds"]:
+                    c[1] = [x["mul"] * p["bind"][x["free"]] + x["add"] if isinstance(x, dict) and "free" in x else x for x in c[1]]
+            else:
+                kind, q = x_mutate(rng, p, [kind])
+                if "bind" in p:
+                    q["bind"] = dict(p["bind"])
+            yield {"check": "x", "kind": "sym-" + kind, "p": p, "q": q, "calls": [{}, {"compare_params": False}], "nontrivial": True}
+        # measured parameters before any run: values do not exist
+        for _ in range(ctx.budget(6, 40)):
+            p = ff_program(rng)
+            q = ff_variant(rng, p) or copy.deepcopy(p)
+            yield {"check": "x", "kind": "ff-not-run", "p": p, "q": q, "calls": [{}, {"compare_params": False}], "nontrivial": True}
+    run_pairs(ctx, gen(), "sym", eq_batch)
+
+
+def search_history(ctx, eq_batch):
+    """programs that create and delete modes along the way"""
+    rng = ctx.rng
+
+    def gen():
+        for _ in range(ctx.budget(70, 700)):
+            p = sfgen.random_history_spec(rng, list(sfgen.GAUSSIAN_GATES), ncmds=rng.randint(3, 8), p_new=0.2, p_del=0.2)
+            kind, q = x_mutate(rng, p, ["same", "prefix", "extend", "dagger", "param", "modes", "swap", "swap", "swapdep", "dropmid", "dup"])
+            for s in (p, q):
+                s.pop("live", None)
+                s.pop("total", None)
+            yield {"check": "x", "kind": kind, "p": p, "q": q, "calls": [{}, {"compare_params": False}], "nontrivial": True}
+    run_pairs(ctx, gen(), "hist", eq_batch)
+
+
+def search_ff2(ctx, eq_batch):
+    """feed-forward programs AFTER a run (measured parameters have values; the default, parameter-comparing test applies)"""
+    rng = ctx.rng
+
+    def gen():
+        for _ in range(ctx.budget(120, 1200)):
+            p = ff_program(rng)
+            q = ff_variant(rng, p)
+            if q is None:
+                continue
+            yield {"check": "x", "kind": "ff-reorder", "p": p, "q": q, "ran": True, "calls": [{}, {"compare_params": False}], "nontrivial": True}
+    run_pairs(ctx, gen(), "ff2", None)
+
+
+def search_targets(ctx, eq_batch):
+    """compile targets: == distinguishes programs compiled for different targets (and compiled from uncompiled); the circuit still counts"""
+    rng = ctx.rng
+    prim = ["Dgate", "Sgate", "Rgate", "BSgate"]
+
+    def gen():
+        for _ in range(ctx.budget(14, 80)):
+            n = rng.randint(1, 3)
+            p = {"n": n, "cmds": [sfgen.random_cmd(rng, n, prim, 0.0) for _ in range(rng.randint(1, 4))]}
+            kind, q = x_mutate(rng, p, ["same", "same", "param", "prefix", "swap"])
+            p = {"n": n, "cmds": [c for c in p["cmds"] if c[0] in prim]}
+            q = {"n": n, "cmds": [c for c in q["cmds"] if c[0] in prim]}
+            if kind != "same" and p == q:
+                kind = "same"
+            ta, tb = rng.choice(COMPILERS), rng.choice(COMPILERS)
+            if ta:
+                p["compile"] = ta
+            if tb:
+                q["compile"] = tb
+            try:
+                ok = all([type(c.op).__name__ for c in x_build(s).circuit] == [c[0] for c in s["cmds"]] for s in (p, q))
+            except Exception:
+                ok = False
+            if not ok:
+                continue
+            yield {"check": "x", "kind": "target-" + kind, "p": p, "q": q, "calls": [{}], "nontrivial": ta != tb}
+    run_pairs(ctx, gen(), "target", eq_batch)
+
+
+def search_measure_options(ctx, eq_batch):
+    """multi-mode photon-counting measurements with post-selection / dark counts per mode: the i-th value belongs to the i-th listed mode"""
+    rng = ctx.rng
+
+    def gen():
+        # post-selection on the outcome 0 against no post-selection at all
+        for rep in range(ctx.budget(2, 8)):
+            pre = [["Sgate", [0.5, 0.2], [0], False], ["Dgate", [0.4, 0.3], [1], False], ["BSgate", [0.5, 0.1], [0, 1], False]]
+            m = rng.randrange(2)
+            if rep % 2 == 0:
+                phi = rng.choice([0.0, 0.3, PI / 2])
+                a, b = ["MeasureHomodyneSel", [phi, 0.0], [m], False], ["MeasureHomodyne", [phi], [m], False]
+            else:
+                a, b = ["MeasureHeterodyneSel", [0.0, 0.0], [m], False], ["MeasureHeterodyne", [], [m], False]
+            yield {"check": "x", "kind": "select-drop", "p": {"n": 2, "cmds": pre + [a]}, "q": {"n": 2, "cmds": copy.deepcopy(pre) + [b]}, "calls": [{}], "nontrivial": True}
+        for rep in range(ctx.budget(6, 30)):
+            n = 3
+            pre = [["Sgate", [round(rng.uniform(0.4, 0.7), 2), 0.0], [0], False], ["Dgate", [round(rng.uniform(0.3, 0.6), 2), 0.0], [1], False], ["Dgate", [0.3, 0.4], [2], False],
+                   ["BSgate", [0.5, 0.1], [0, 1], False], ["BSgate", [0.7, 0.3], [1, 2], False]]
+            m = rng.sample(range(n), 2)
+            which = rep % 6
+            if which == 0:    # same values, modes listed in the other order: a different post-selection
+                o1, o2, m2, kind = {"select": [0, 1]}, {"select": [0, 1]}, m[::-1], "measure-order"
+            elif which == 1:  # values and modes both reversed: the same measurement
+                o1, o2, m2, kind = {"select": [0, 1]}, {"select": [1, 0]}, m[::-1], "measure-order-consistent"
+            elif which == 2:  # values reversed only
+                o1, o2, m2, kind = {"select": [0, 1]}, {"select": [1, 0]}, m, "select"
+            elif which == 3:
+                o1, o2, m2, kind = {"dark_counts": [0.1, 0.8]}, {"dark_counts": [0.8, 0.1]}, m, "dark"
+            elif which == 4:  # fewer modes measured
+                o1, o2, m2, kind = {"dark_counts": [0.1, 0.8]}, {"dark_counts": [0.1]}, m[:1], "measure-subset"
+            else:
+                o1, o2, m2, kind = {}, {}, m[:1], "measure-subset"
+            cls = "MeasureFock" if which != 1 or rng.random() < 0.7 else "MeasureFock"
+            p = {"n": n, "cmds": pre + [[cls, [], m, False, o1]]}
+            q = {"n": n, "cmds": copy.deepcopy(pre) + [[cls, [], m2, False, o2]]}
+            yield {"check": "x", "kind": kind, "p": p, "q": q, "calls": [{}], "nontrivial": True}
+    run_pairs(ctx, gen(), "mopt", eq_batch)
+
+
+# ---- TDM programs ------------------------------------------------------------------------------------------------------------------------
+def tdm_build(spec):
+    from strawberryfields.tdm import TDMProgram
+    from strawberryfields import ops
+    t = spec["tdm"]
+    prog = TDMProgram(N=t["N"])
+    with prog.context(*t["arrays"]) as (pp, q):
+        for name, params, modes in t["cmds"]:
+            getattr(ops, name)(*[pp[x["tb"]] if isinstance(x, dict) else x for x in params]) | tuple(q[m] for m in modes)
+    return prog
+
+
+def tdm_run(spec):
+    import strawberryfields as sf
+    np.random.seed(5)
+    r = sf.Engine("gaussian").run(tdm_build(spec))
+    return ("tdm", np.array(r.samples, dtype=float))
+
+
+def judge_tdm(d):
+    p, q = d["p"], d["q"]
+    issues = []
+    P, Q = x_build(p), x_build(q)
+    try:
+        r1, r2 = bool(P == Q), bool(Q == P)
+    except Exception as e:
+        return [("cex", "eq:tdm:raises:" + type(e).__name__, "== raised %r on TDM programs" % e)]
+    want = p == q
+    if r1 != r2:
+        issues.append(("cex", "eq:asymmetric", "TDM programs: p == q %s, q == p %s" % (r1, r2)))
+    if (r1 or r2) and not want:
+        dd = x_differ(p, q, 1e-9)
+        what = "time-bin-parameters" if ("tdm" in p and "tdm" in q and p["tdm"]["cmds"] == q["tdm"]["cmds"]) else "structure"
+        issues.append(("cex" if dd else "dis", ("eq:tdm:accepts:" if dd else "corr:eq:tdm:accepts:") + what,
+                       "== reports equal for time-domain programs that differ in %s%s" % (what, " and produce different samples under the same seed" if dd else "")))
+    if want and not r1:
+        issues.append(("dis", "corr:eq:tdm:rejects", "== reports different for identically built TDM programs"))
+    return issues
+
+
+def search_tdm(ctx):
+    rng = ctx.rng
+    for _ in range(ctx.budget(4, 20)):
+        arrays = [[round(rng.uniform(0.1, 0.9), 2) for _ in range(2)] for _ in range(2)]
+        cmds = [["Sgate", [0.5, 0.0], [1]], ["BSgate", [{"tb": 0}, 0.0], [0, 1]], ["Rgate", [0.4], [0]], ["MeasureHomodyne", [{"tb": 1}], [0]]]
+        p = {"tdm": {"N": 2, "arrays": arrays, "cmds": cmds}}
+        kind = rng.choice(["same", "arrays", "arrays", "gate", "plain"])
+        q = copy.deepcopy(p)
+        if kind == "arrays":
+            q["tdm"]["arrays"][rng.randrange(2)][rng.randrange(2)] += rng.choice([0.3, 0.05])
+        elif kind == "gate":
+            q["tdm"]["cmds"][2][1][0] += 0.2
+        elif kind == "plain":
+            q = {"n": 2, "cmds": [["Sgate", [0.5, 0.0], [1], False], ["BSgate", [arrays[0][0], 0.0], [0, 1], False], ["Rgate", [0.4], [0], False]]}
+        d = {"check": "tdm", "kind": "tdm-" + kind, "p": p, "q": q}
+        ctx.case({"kind": d["kind"], "p": p, "q": q}, nontrivial=kind != "same", bucket="tdm-" + kind)
+        report(ctx, judge_tdm(d), d)
+
+
+# ---- the Coq model of == on the extended family ------------------------------------------------------------------------------------------
+def enc_prog_x(spec, pid, side):
+    def enc_cmd(c):
+        cc = canon_cmd(c, side)
+        opts = [] if cc["options"] == (None, None) else [pid(("opt", repr(cc["options"])))]
+        return "mkCmd %d %s %s %s %s" % (XNAMES.index(cc["class"]) if cc["class"] in XNAMES else len(XNAMES) + ["_New_modes", "_Delete"].index(cc["class"]),
+                                        coq.coq_list([pid(x) for x in cc["params"]], coq.coq_Z), coq.coq_list(cc["modes"], str), coq.coq_bool(cc["dagger"]), coq.coq_list(opts, coq.coq_Z))
+    tgt = "None" if not spec.get("compile") else "(Some %d)" % COMPILERS.index(spec["compile"])
+    reg = coq.coq_list(["(%d, true)" % i for i in final_register(spec)])
+    return "(mkProg %s %s %s)" % (tgt, reg, coq.coq_list([enc_cmd(c) for c in spec["cmds"]], lambda s: "(%s)" % s))
+
+
+def coq_eq_batch(ctx, batch):
+    """impl (p == q, q == p, p == p) against prog_eq of coq/C18/Model.v on every pair the new streams looked at"""
+    batch = [b for b in batch if "tdm" not in b[0] and "tdm" not in b[1]]
+    for si in range(0, len(batch), 500):
+        sh = batch[si:si + 500]
+        items = []
+        for p, q, _, _ in sh:
+            table = {}
+            pid = lambda v: table.setdefault(repr(v), len(table))
+            items.append("(%s, %s)" % (enc_prog_x(p, pid, "L"), enc_prog_x(q, pid, "R")))
+        lines = ["From Coq Require Import List ZArith Bool.", "Import ListNotations.", "From SFV Require Import C18.Model.", "Definition cases : list (prog * prog) := [",
+                 ";\n".join(items) + "].", "Eval vm_compute in map (fun c => (prog_eq (fst c) (snd c), prog_eq (snd c) (fst c), prog_eq (fst c) (fst c))) cases."]
+        ok, vals, raw = ctx.coq_eval("cases_x_%d" % (si // 500), "\n".join(lines))
+        if not ok:
+            ctx.obligation("correspondence:prog_eq:extended:%d" % (si // 500), False, raw)
+            return
+        ctx.obligation("correspondence:prog_eq:extended:%d" % (si // 500), True)
+        ctx.traces += len(sh)
+        for (p, q, ie, d), me in zip(sh, vals[0]):
+            if tuple(ie) != tuple(me):
+                aspect = ref_eq(p, q)[1] or d.get("kind", "?")
+                dd = x_differ(p, q, 1e-6 if spec_has_measurement(p) else 1e-10) if (ie[0] or ie[1]) else None
+                if dd:
+                    ctx.counterexample("eq:accepts:" + aspect, "Program.__eq__ reports equal (model prog_eq: %s) for programs that differ in %s and compute different states" % (list(me), aspect),
+                                       dict(d, signature="eq:accepts:" + aspect))
+                else:
+                    ctx.disagreement("corr:eq:model:" + aspect, "model prog_eq %s vs implementation %s on a '%s' pair" % (list(me), list(ie), d.get("kind")), dict(d, signature="corr:eq:model:" + aspect))
+
+
+def search(ctx):
+    """Property predicate on the implementation, on every family; each verdict is also compared with the reference model (ref_equiv / ref_eq)
+    and, for ==, with prog_eq of coq/C18/Model.v."""
+    eq_batch = []
+    search_random2(ctx, eq_batch)
+    search_multimode(ctx, eq_batch)
+    search_tolerance(ctx, eq_batch)
+    search_symbolic(ctx, eq_batch)
+    search_history(ctx, eq_batch)
+    search_ff2(ctx, eq_batch)
+    search_targets(ctx, eq_batch)
+    search_measure_options(ctx, eq_batch)
+    search_tdm(ctx)
+    search_registers(ctx)
+    coq_eq_batch(ctx, eq_batch)
+
+
+def replay(ctx, data):
+    d = dict(data["data"])
+    want = data.get("signature") or d.get("signature")
+    chk = d.get("check")
+    if chk == "equiv":  # older replay files of the random stream
+        d = {"check": "x", "kind": d.get("kind", "?"), "p": d["p"], "q": d["q"], "calls": [{}], "skip_eq": True}
+        chk = "x"
+    if chk in ("x", "tdm"):
+        issues = judge_pair(d) if chk == "x" else judge_tdm(d)
+        for sev, sig, what in issues:
+            print("%s [%s] %s" % (sev, sig, what))
+        if want:
+            return any(sig == want for _, sig, _ in issues)
+        return any(sev == "cex" for sev, _, _ in issues)
+    return replay_old(ctx, data)
